@@ -50,6 +50,21 @@ def dump_raw(file_path, group="/"):
     return d, extra
 
 
+_BINQ = {}      # last answers of the two pure bin-table questions, keyed by their arguments (one entry each)
+
+
+def _ask_bins(op, bins, **kw):
+    """`drv().ask(op, bins=bins, **kw)`; the answer of the Lean function for the SAME arguments is reused (several collections
+    over one big bin table: the table is marshalled and judged once)"""
+    key = (op, hash(tuple(map(tuple, bins))), len(bins), tuple(sorted(kw.items())))
+    hit = _BINQ.get(op)
+    if hit is not None and hit[0] == key and hit[1] == bins:
+        return hit[2]
+    ans = drv().ask(op, bins=bins, **kw)
+    _BINQ[op] = (key, bins, ans)
+    return ans
+
+
 def violations(file_path, group="/"):
     """list of violated schema clauses (strings); empty = valid"""
     d, extra = dump_raw(file_path, group)
@@ -63,7 +78,7 @@ def violations(file_path, group="/"):
     # bin type / size and chromosome lengths agree with the stored bin table (Lean: getBinsize, getChromsizes)
     bins = [[c, s, e] for c, s, e in zip(d["bin_chrom"], extra["starts"], extra["ends"])]
     if bins:
-        info = drv().ask("C20.bininfo", bins=bins)
+        info = _ask_bins("C20.bininfo", bins)
         bs = info["binsize"]
         bt, bsz = extra["bin-type"], extra["bin-size"]
         bsz = None if bsz in ("null", None) else int(bsz)
@@ -71,7 +86,7 @@ def violations(file_path, group="/"):
             if (bt == "fixed") != (bsz is not None):
                 out.append("bin-type and bin-size attributes disagree")
             if bsz is not None:
-                if not drv().ask("C20.uniform", bins=bins, b=bsz)["uniform"]:
+                if not _ask_bins("C20.uniform", bins, b=bsz)["uniform"]:
                     out.append(f"bin-size attribute {bsz} is not true of the stored bin table")
             elif bs is not None and bt != "variable":
                 out.append("bin-type attribute")
